@@ -387,13 +387,27 @@ func c14Record(a []string) string {
 // start+<slept seconds> whenever an Add/Has runs
 
 func c14Blacklist(a []string) string {
-	scen := strings.Split(a[0], "|")
+	// the wall clock is the only clock IpBlacklist knows: if the machine stalls so that an
+	// operation does not run in the second it was scheduled for, the whole line is run again
+	for attempt := 0; attempt < 4; attempt++ {
+		if out, ok := c14BlacklistOnce(a[0]); ok {
+			return out
+		}
+	}
+	return "clock-unstable"
+}
+
+func c14BlacklistOnce(line string) (string, bool) {
+	scen := strings.Split(line, "|")
 	out := make([]string, len(scen))
 	// align: 300 ms into a second
 	now := time.Now()
 	start := now.Truncate(time.Second).Add(time.Second + 300*time.Millisecond)
 	time.Sleep(start.Sub(now))
+	startUnix := start.Unix()
 	var wg sync.WaitGroup
+	var badMu sync.Mutex
+	bad := false
 	for i, sc := range scen {
 		wg.Add(1)
 		go func(i int, sc string) {
@@ -401,6 +415,13 @@ func c14Blacklist(a []string) string {
 			var bl logic.IpBlacklist
 			virt := int64(0)
 			var res []byte
+			onTime := func() {
+				if time.Now().Unix() != startUnix+virt {
+					badMu.Lock()
+					bad = true
+					badMu.Unlock()
+				}
+			}
 			for _, o := range strings.Split(sc, ",") {
 				f := strings.Split(o, ":")
 				switch f[0] {
@@ -409,13 +430,17 @@ func c14Blacklist(a []string) string {
 					if err != nil {
 						panic("bad duration")
 					}
+					onTime()
 					bl.Add(c14Str(f[1]), d)
+					onTime()
 				case "H":
+					onTime()
 					if bl.Has(c14Str(f[1])) {
 						res = append(res, '1')
 					} else {
 						res = append(res, '0')
 					}
+					onTime()
 				case "S":
 					n, err := strconv.Atoi(f[1])
 					if err != nil {
@@ -432,7 +457,7 @@ func c14Blacklist(a []string) string {
 		}(i, sc)
 	}
 	wg.Wait()
-	return strings.Join(out, "|")
+	return strings.Join(out, "|"), !bad
 }
 
 // ---------------------------------------------------------------------------
